@@ -86,13 +86,13 @@ func natType(m, f Dep, life time.Duration) vnet.NATType {
 }
 
 type world struct {
-	t     *rapid.T
-	c     *ev.Case
-	clock *vclock.Clock
-	nat   *vnet.VerifNAT
-	m     *Model
-	nIPs  int
-	exts  []string // every external address ever learned
+	t      *rapid.T
+	c      *ev.Case
+	clock  *vclock.Clock
+	nat    *vnet.VerifNAT
+	m      *Model
+	nIPs   int
+	exts   []string // every external address ever learned
 	seq    int
 	focus  string // "C02" or "C03": which statements are asserted
 	silent bool   // no per-event log/op (port-space scenario: tens of thousands of events)
@@ -482,7 +482,18 @@ const rulePortSpace = "port-space scenario run through the full mapping model: a
 
 func TestC02PortSpace(t *testing.T) {
 	r := ev.New("C02", "port-space", rulePortSpace)
-	r.Check(t, func(t *rapid.T, c *ev.Case) {
+	r.Check(t, func(t *rapid.T, c *ev.Case) { runPortSpace(t, c) })
+}
+
+// TestC03PortSpace runs the same scenario for C03: its inbound probes are C03's
+// clauses (a live mapping admits its remote to its owner, an ended one nobody).
+func TestC03PortSpace(t *testing.T) {
+	r := ev.New("C03", "port-space", rulePortSpace)
+	r.Check(t, func(t *rapid.T, c *ev.Case) { runPortSpace(t, c) })
+}
+
+func runPortSpace(t *rapid.T, c *ev.Case) {
+	{
 		n1 := rapid.SampledFrom([]int{1, 10, 5000, 16383, 16384, 16390}).Draw(t, "phase1")
 		expire := rapid.Bool().Draw(t, "expire")
 		n2 := rapid.SampledFrom([]int{0, 20, 400, 16390}).Draw(t, "phase2")
@@ -566,5 +577,5 @@ func TestC02PortSpace(t *testing.T) {
 		}
 		c.Count("mappings_requested", int64(n1+n2+again))
 		c.Count("inbound_probes", int64(probes))
-	})
+	}
 }
